@@ -48,7 +48,8 @@ ASSUMPTIONS = [
     "scripted handlers either propagate the exceptions of the events they send or swallow all of them "
     "(try/except Exception: pass around one send); OutputFunc catches only the exceptions of its function",
     "values are ints/bools, so that Counter arithmetic never sees a non-number",
-    "FSM: the `duration` data item and user-defined calc_output are not modelled (the output is the state name); the "
+    "FSM: the `duration` data item is a number or absent (0 / negative = zero delay; strings with units and INF_TIME are "
+    "outside the scenarios); user-defined calc_output is not modelled (the output is the state name); the "
     "event data item `sdata` is left out; timers fire one at a time in the order the event loop delivers them "
     "(recorded from the implementation); cond_EVENT callbacks are scripts given as keyword arguments (no cond methods)",
     "Repeat: WHEN the main task re-sends and with which counter is the implementation's (C18); the model validates the "
@@ -843,6 +844,11 @@ def seeds():
     yield {'blocks': [{**fsm(2, [['e0', None, 1], ['e1', None, 0]], enter=[[], [['r']]]), 'persistent': True},
                       {**inp(), 'persistent': True}],
            'edges': [[1, 'o', 0, N('e0'), ['u']]], 'ops': [E(0, 'e1'), E(1, 'put', {'value': 1}), R(1, N('put'), {'value': 2})]}
+    # the `duration` item of an event: 0 makes the expiry of the timed state a chained transition
+    yield {'blocks': [fsm(2, [['e0', 0, 1], ['e1', 1, 0]], timed=[None, [N('e1'), 2]]), cnt()],
+           'edges': [[0, 'en0', 1, N('inc'), []], [0, 'ex1', 0, N('e0'), ['v']]],
+           'ops': [E(0, 'e0', {'duration': 0}), E(0, 'e0', {'duration': 1}), ['tick'], E(0, 'e0'), R(0, ['g', 1], {'duration': 0}),
+                   E(0, 'e0', {'duration': 0, 'value': 1})]}
     A = ['adv']
     # Repeat: forwards from inside its handler, re-sends from its main task (count 2: two repetitions)
     yield {'blocks': [rpt(1, 'put', 2), inp()], 'edges': [], 'ops': [E(0, 'put', {'value': 1}), A, A, A, E(0, 'zz'), E(0, 'put', {'value': 2}), A]}
@@ -1144,6 +1150,11 @@ def alphabet(rng, circ):
             ops += [['ext', i, 'a', {}], ['ext', i, 'b', {'value': rng.choice(VALUES)}],
                     ['ext', i, rng.choice(['need', 'zz']), rng.choice([{}, {'value': 1}])]]
         elif k == 'fsm':
+            if any(t is not None for t in b['timed']):
+                # the `duration` item: overrides the timed state's default (0 = expiry chained at once)
+                ops += [['ext', i, rng.choice(['e0', 'e1']), {'duration': rng.choice([0, 0, 1, 2])}],
+                        ['raw', i, ['g', rng.choice([k for k, t in enumerate(b['timed']) if t is not None])],
+                         {'duration': rng.choice([0, 1])}]]
             ops += [['ext', i, 'e0', {}], ['ext', i, rng.choice(['e0', 'e1']), {'value': rng.choice(VALUES)}],
                     ['ext', i, rng.choice(['e1', 'zz']), {}], ['raw', i, ['g', rng.randrange(b['n'])], {}]]
             if any(t is not None and t[1] > 0 for t in b['timed']):
